@@ -269,5 +269,7 @@ func (c *tcpConnectionActor) handshake() (err error) {
 		}
 	}
 
-	return nil
+	// 握手为读写设置的 10 秒截止时间仅用于握手本身，完成后必须清除：
+	// 否则连接建立 10 秒后的任何读写都会因超时失败，连接被拆除，传输中的帧随之丢失
+	return c.conn.SetDeadline(time.Time{})
 }
